@@ -942,14 +942,15 @@ def run_c15(ctx, plan):
 # the concurrent cache under several threads (modes S and F)
 
 CONC_PROGS = {"ii": 2, "ii2": 2, "ixi": 2, "upd": 2, "rej": 2, "syncs": 2, "ia": 2, "wgt": 2, "xget": 2,
-              "ttl": 2, "tti": 2, "three": 3, "three2": 3, "burst": 2, "ttix": 2, "grow": 2, "iax": 2, "farw": 2, "farx": 2, "iasy": 2, "xaxa": 2,
+              "ttl": 2, "tti": 2, "three": 3, "three2": 3, "burst": 2, "ttix": 2, "grow": 2, "iax": 2, "farw": 2, "farx": 2, "iasy": 2, "xaxa": 2, "putback": 2,
               "all_unit": 2, "all_wgt": 2, "all_exp": 2}
-CONC_QUICK = ["ii", "upd", "rej", "ixi", "wgt", "xget", "burst", "ttix", "grow", "iax", "farx", "iasy", "xaxa"]
+CONC_QUICK = ["ii", "upd", "rej", "ixi", "wgt", "xget", "burst", "ttix", "grow", "iax", "farx", "iasy", "xaxa", "putback"]
 CONC_LIGHT = ["ii", "rej", "syncs", "grow"]
 # programs replayed once more with scaled queues (flush point, read slots, write slots): small programs
 # then reach a full queue, the writers' retry loop and maintenance triggered by the flush point
 SCALED = (2, 3, 2)
 CONC_SCALED = ["burst", "ii2", "three2"]
+FINE_PROGS = ["putback", "rej", "upd", "wgt", "farx"]
 # "all" slices: the share of the programs whose schedules are emitted and replayed (1 / m), quick / thorough
 ALL_PICK = {"all_unit": (24, 8), "all_wgt": (60, 20), "all_exp": (60, 20)}
 
@@ -1071,8 +1072,30 @@ def stage_conc_s(ctx, progs, max_per_prog, random_runs, scaled=False):
                 b["sched"] = []
                 b["seed"] = ctx.seed * 100000 + i
                 b["id"] = i
+                # every other run in the fine-grained mode: a switch point before every map access,
+                # also inside maintenance (the harness's key type parks the thread when it is hashed)
+                b["fine"] = (i // len(protos)) % 2 == 1
                 f.write(json.dumps(b) + "\n")
         run_sched(ctx, name, beh, random_runs, "seeded random schedules")
+        if not scaled:
+            # the programs in which maintenance reaches the map by key several times: seeded random
+            # schedules in the fine-grained mode only
+            name = pre + "fine"
+            beh = os.path.join(ctx.wd, name + ".beh.ndjson")
+            fine = [p for p in FINE_PROGS if p in progs]
+            per = 120 if ctx.tier == "quick" else 3000
+            n = 0
+            with open(beh, "w") as f:
+                for prog in fine:
+                    with open(os.path.join(ctx.wd, "%s%s.beh.ndjson" % (pre, prog))) as g:
+                        proto = json.loads(g.readline())
+                    proto.pop("last", None)
+                    for i in range(per):
+                        b = dict(proto, sched=[], seed=ctx.seed * 1000003 + n, id=n, fine=True)
+                        f.write(json.dumps(b) + "\n")
+                        n += 1
+            if n:
+                run_sched(ctx, name, beh, n, "seeded random schedules with a switch point before every map access")
 
 
 def run_sched(ctx, name, beh, n, what):
